@@ -24,6 +24,7 @@ RULE = (
     "successes up to float accuracy, values in {0,1}, length n; random=True: length n, 0/1. CorrelatedBernoullilDataset: rho 1e-6 inside the "
     "feasible interval -> shape (2,n), 0/1, marginal counts within 3 of n*p (non-random), joint counts = floor(n*p_joint) except the last cell; "
     "rho >= 1e-3 outside -> ValueError; the float boundary itself is not judged. Non-trivial: always; distinct = hash of the parameter set."
+    ' Build-phase additions: dataset size from sample(n) / stored n / both, documented sigma defaults of from_metrics, large Bernoulli draws.'
 )
 ASSUMPTIONS = ["finite mu, sigma in [0.1, 5], rates in (1e-6, 1-1e-6), supports 1..60, n 1..300", "statistics.NormalDist as independent reference"]
 from statistics import NormalDist  # noqa: E402
